@@ -23,7 +23,7 @@ from .gen import ops_gen, schema_gen
 HARMLESS_OPS = ["getUserHTTPInfo", "list_all", "X", "q2", "Init", "main", "type", "match", "print"]
 STRESS_OPS = ["class", "None", "none", "import", "_1", "_private", "client", "enums", "input_types", "fragments", "exceptions",
               "base_model", "async_base_client", "base_client", "Optional", "List", "Any", "Field", "BaseModel", "customQueries",
-              "custom_fields", "baseOperation", "Upload", "operations"]
+              "custom_fields", "baseOperation", "Upload", "operations", "fooBar", "foo_bar", "FooBar"]
 HARMLESS_VARS = ["first", "after", "userId", "variables", "data", "response", "query", "type", "id_", "URLPath"]
 STRESS_VARS = ["self", "kwargs", "_query", "class", "from", "None", "_x", "x", "fooBar", "foo_bar", "gql", "__x", "_1", "Any", "Optional"]
 HARMLESS_FRAGS = ["userBits", "NodeParts", "f1", "typeBits", "case"]
@@ -129,6 +129,7 @@ def stress_schema(s: Dict[str, Any], rng: random.Random, p: float, stress_p: flo
                 vals.append(v)
             t["values"] = vals
     # input-field defaults: scalars and enums (lists of enums too), nullable fields only or with a non-null type
+    custom_scalars = {t["name"] for t in s["types"] if t["kind"] == "scalar"}
     for t in s["types"]:
         if t["kind"] != "input":
             continue
@@ -148,6 +149,8 @@ def stress_schema(s: Dict[str, Any], rng: random.Random, p: float, stress_p: flo
                 lit = rng.choice(["true", "false"])
             elif base == "Float":
                 lit = rng.choice(["1.5", "2.0"])
+            elif stress_p and base in custom_scalars and rng.random() < stress_p:
+                lit = "FOO"  # an enum literal is a valid literal for a custom scalar (finding F24: emitted as `.FOO`)
             if lit is None:
                 continue
             depth = sum(1 for x in _wrappers(f["type"]) if x == "list")
